@@ -637,3 +637,89 @@ func (c *Ctx) checkLockOrder(rule string) {
 		c.okTrivial(rule, "lock order graph", "-", "no nested acquisitions")
 	}
 }
+
+// ---------- package-level variables ----------
+
+type globalRow struct {
+	Rel, Name string
+	Kind      protKind
+	LockVar   string   // package-level mutex variable (same package) for protMutex
+	Startup   []string // functions allowed to write (single-goroutine start-up)
+	Reason    string
+}
+
+var globalGuardTable = []globalRow{
+	{"proxy/lib", "currentNATType", protMutex, "currentNATTypeAccess", nil, "source comment: 'Obtain currentNATTypeAccess before access'"},
+	{"proxy/lib", "broker", protImmutable, "", []string{"proxy/lib.(*SnowflakeProxy).Start"}, "set by Start before the polling loop and the NAT re-test task run"},
+	{"proxy/lib", "config", protImmutable, "", []string{"proxy/lib.(*SnowflakeProxy).Start"}, "set by Start before use"},
+	{"proxy/lib", "tokens", protImmutable, "", []string{"proxy/lib.(*SnowflakeProxy).Start"}, "set by Start before the first session"},
+	{"proxy/lib", "currentNATTypeAccess", protImmutable, "", nil, "initialised once"},
+	{"server/lib", "clientIDAddrMap", protImmutable, "", nil, "initialised once; the map synchronises itself"},
+	{"common/encapsulation", "paddingBuffer", protImmutable, "", nil, "read-only scratch for padding"},
+	{"common/utls", "clientHelloIDMap", protImmutable, "", nil, "lookup table"},
+}
+
+// checkGlobalRows decides the package-level rows.
+func (c *Ctx) checkGlobalRows(rule string, rows []globalRow) {
+	p := c.P
+	le := p.Locks()
+	for _, row := range rows {
+		g := p.Global(row.Rel, row.Name)
+		key := "global " + row.Rel + "." + row.Name
+		if g == nil {
+			c.undecided(rule, key, "-", "package-level variable does not resolve (renamed or removed): the table row must be re-confirmed")
+			continue
+		}
+		lockKey := ""
+		if row.Kind == protMutex {
+			lockKey = "global:" + g.Pkg.Pkg.Name() + "." + row.LockVar
+		}
+		n, bad := 0, 0
+		fns := p.FnsIn()
+		if init := g.Pkg.Func("init"); init != nil {
+			_ = init // writes in the package initialiser are before any goroutine exists
+		}
+		for _, fn := range fns {
+			allInstrs(fn, func(in ssa.Instruction) {
+				var kind accessKind
+				switch x := in.(type) {
+				case *ssa.Store:
+					if x.Addr != ssa.Value(g) {
+						return
+					}
+					kind = accWrite
+				case *ssa.UnOp:
+					if x.Op != token.MUL || x.X != ssa.Value(g) {
+						return
+					}
+					kind = accRead
+				default:
+					return
+				}
+				n++
+				okAcc := false
+				why := ""
+				switch row.Kind {
+				case protMutex:
+					mode := le.Held(in, lockKey)
+					okAcc = (kind == accRead && mode >= heldRead) || (kind == accWrite && mode >= heldWrite)
+					why = fmt.Sprintf("%s of %s without %s; locks held: %s", kind, key, lockKey, le.StateAt(in))
+				case protImmutable:
+					okAcc = kind == accRead || contains(row.Startup, p.FnName(fn))
+					why = fmt.Sprintf("%s of %s outside initialisation/start-up; it is read by other goroutines without synchronisation", kind, key)
+				}
+				if !okAcc {
+					bad++
+					c.viol(rule, fmt.Sprintf("%s %ss %s without its protection", p.FnName(fn), kind, key), p.instrPos(in), why)
+				}
+			})
+		}
+		if bad == 0 {
+			prot := lockKey
+			if row.Kind == protImmutable {
+				prot = "written only at initialisation/start-up"
+			}
+			c.ok(rule, "row "+key+" -> "+prot, p.Pos(g.Pos()), fmt.Sprintf("%d access(es), all protected", n))
+		}
+	}
+}
